@@ -23,6 +23,7 @@ var (
 	fKnown   = flag.String("verif.known", "", "comma separated known-finding violation classes")
 	fReplay  = flag.String("verif.replay", "", "replay file to re-execute")
 	fSamples = flag.Int("verif.samples", 0, "sample runs to write out")
+	fScratch = flag.String("verif.scratch", "", "unused")
 	fScript  = flag.String("verif.script", "", "scripted finding to run")
 	fDump    = flag.Int("verif.dump", -1, "dump the trace of this run index and exit")
 )
